@@ -280,6 +280,11 @@ class PathTable:
                 return self._walk(st.body, l, depth)
             if c == sp.false:
                 return self._walk(st.orelse, l, depth)
+            decided = _decided_by_path(l, c)
+            if decided is True:
+                return self._walk(st.body, l, depth)
+            if decided is False:
+                return self._walk(st.orelse, l, depth)
             a, b = self._copy(l), self._copy(l)
             a.conds.append((c, True))
             b.conds.append((c, False))
@@ -1054,6 +1059,28 @@ def canon_rel(r):
     if isinstance(r, sp.Le):
         return sp.Ge(r.rhs, r.lhs, evaluate=False)
     return r
+
+
+def _decided_by_path(l, c) -> Optional[bool]:
+    """An atomic test the path has already taken (or refuted) is not a new decision: the same relation over the same terms, with
+    nothing those terms name stored to on the way."""
+    if not isinstance(c, (sp.Eq, sp.Ne, sp.Gt, sp.Ge, sp.Lt, sp.Le)) or not l.conds:
+        return None
+    names = {str(x) for x in c.free_symbols}
+    for e in l.events:
+        if e[0] == "store":
+            root = str(e[1]).split("[")[0]
+            if any(n == root or n.startswith(root + ".") or n.startswith(root + "[") for n in names):
+                return None
+    try:
+        lits = literals(l)
+        if any(same_rel(x, c) for x in lits):
+            return True
+        if any(same_rel(x, negate(c)) for x in lits):
+            return False
+    except Exception:
+        return None
+    return None
 
 
 def negate(r):
